@@ -416,12 +416,21 @@ def _range_contains(it, fn, args, dty, sg, cons, excl, depth):
     item = args[1].v if isinstance(args[1], Ref) else args[1]
     if isinstance(rng, Enum) and isinstance(item, BV) and rng.fields["start"].is_const() and rng.fields["end"].is_const():
         lo, hi = rng.fields["start"].value(), rng.fields["end"].value()
+        if item.signed:
+            lo, hi = rng.fields["start"].svalue(), rng.fields["end"].svalue()
         if item.is_const():
             return [(sg, cons, excl, BV.const(1, False, 1 if lo <= item.value() <= hi else 0))]
         name = item.whole_var()
         if name:
             return [(sg, cons, excl, Pred(name, "In", (lo, hi)))]
     raise LeaveDomain("contains on %r, %r" % (rng, item))
+
+
+def _range_new(it, fn, args, dty, sg, cons, excl, depth):
+    a, b = args[0], args[1]
+    if isinstance(a, BV) and isinstance(b, BV):
+        return [(sg, cons, excl, Enum("std::ops::RangeInclusive", "RangeInclusive", {"start": a, "end": b, "exhausted": BV.const(1, False, 0)}))]
+    raise LeaveDomain("RangeInclusive::new(%r, %r)" % (a, b))
 
 
 def _call_once(it, fn, args, dty, sg, cons, excl, depth):
@@ -437,6 +446,7 @@ PLUMBING = {
     "std::ops::Try::branch": _branch,
     "std::ops::FromResidual::from_residual": _from_residual,
     "std::ops::RangeInclusive::<Idx>::contains": _range_contains,
+    "std::ops::RangeInclusive::<Idx>::new": _range_new,
     "std::ops::FnOnce::call_once": _call_once,
     "std::ops::FnMut::call_mut": _call_once,
     "std::ops::Fn::call": _call_once,
@@ -772,6 +782,15 @@ class Interp:
                         val = 1 if truth else 0
                         tgt = tv.get(val, t["otherwise"])
                         holds = truth != d.neg
+                        if d.op == "In":
+                            # lo <= v <= hi  /  v < lo  or  v > hi : only plain comparisons are recorded
+                            lo_, hi_ = d.c
+                            if holds:
+                                out.append((tgt, e, s, cons + [(d.var, "Ge", lo_, True), (d.var, "Le", hi_, True)], excl, None))
+                            else:
+                                out.append((tgt, e, s, cons + [(d.var, "Lt", lo_, True)], excl, None))
+                                out.append((tgt, e, s, cons + [(d.var, "Gt", hi_, True)], excl, None))
+                            continue
                         out.append((tgt, e, s, cons + [(d.var, d.op, d.c, holds)], excl, None))
                 elif isinstance(d, BV):
                     d = d.subst(s)
